@@ -184,7 +184,7 @@ func discharge(sc *Script, ob *Obligation, timeoutS int, dir string, all bool) {
 	}
 	// functions with a case split: a short attempt on the whole obligation, then the cases, then the long attempt
 	t0 := time.Now()
-	dischargeCore(sc, ob, 20, dir, false, true, false)
+	dischargeCore(sc, ob, 12, dir, false, true, false)
 	if ob.Status == "unsat" || ob.Status == "sat" {
 		return
 	}
@@ -207,21 +207,36 @@ func discharge(sc *Script, ob *Obligation, timeoutS int, dir string, all bool) {
 
 // splitCases decides an obligation under each case condition of the contract; true if every case is unsat.
 func splitCases(sc *Script, ob *Obligation, timeoutS int, dir string) bool {
-	allUnsat := true
-	var subNotes []string
+	// the cases are independent queries: run them side by side (they are usually small once the case condition is known)
+	type caseRes struct {
+		i   int
+		sub *Obligation
+	}
+	results := make([]*Obligation, len(sc.caseTerms))
+	ch := make(chan caseRes, len(sc.caseTerms))
 	for i, ct := range sc.caseTerms {
 		sub := *ob
 		sub.Status, sub.Solver, sub.Output, sub.Model = "", "", "", ""
 		sub.Case = fmt.Sprint(i + 1)
 		sub.Guard = sAnd(ob.Guard, ct)
-		dischargeCore(sc, &sub, timeoutS, dir, false, true, false)
+		go func(i int, sub *Obligation) {
+			dischargeCore(sc, sub, timeoutS, dir, false, true, false)
+			ch <- caseRes{i, sub}
+		}(i, &sub)
+	}
+	for range sc.caseTerms {
+		r := <-ch
+		results[r.i] = r.sub
+	}
+	allUnsat := true
+	var subNotes []string
+	for i, sub := range results {
 		subNotes = append(subNotes, fmt.Sprintf("case %d: %s (%.2fs)", i+1, sub.Status, sub.TimeS))
 		if sub.Status != "unsat" {
 			allUnsat = false
-			if sub.Status == "sat" {
+			if sub.Status == "sat" && ob.Status != "sat" {
 				ob.Status, ob.Solver, ob.Model = "sat", sub.Solver, sub.Model
 			}
-			break
 		}
 	}
 	ob.Output = "case split: " + strings.Join(subNotes, ", ")
